@@ -34,8 +34,20 @@ def sleb_len(v):
 def concretize(ops, rng):
     """model ops -> [(opcode, args, expected values)] with boundary operands; also the op sizes."""
     out = []
+    fixed = {"a8": 8, "u1": 1, "s1": 1, "u2": 2, "s2": 2, "u4": 4, "s4": 4, "u8": 8, "s8": 8}
     for op in ops:
         a, cls = op["atom"], op["cls"]
+        if "enc" in op:
+            # an operation of the complete table (tla/Loc.tla: OpTable): its own operands, its own encoding
+            size = 1 + sum(fixed[e] if e in fixed else (uleb_len(v) if e == "uleb" else sleb_len(v))
+                           for e, v in zip(op["enc"], op["args"]))
+            kind = "hex" if cls == "addr" else "dec"
+            exp = [] if cls == "none" else [(kind, v) for v in op["args"]]
+            # the generator's own operand table must agree on the encoding, or the bytes are not what the model says
+            if dwarfgen.OPS.get(op["code"]) != list(op["enc"]):
+                raise common.ToolError("generator and tla/Loc.tla disagree on the encoding of %s" % a)
+            out.append((op["code"], list(op["args"]), exp, size))
+            continue
         code = ATOM[a]
         if cls == "none":
             out.append((code, [], [], 1))
@@ -71,7 +83,7 @@ def run(tier):
             vd.observe("model:location / abbreviation laws", {"output": r.out[-3000:]})
         raise common.ToolError("LocGen failed\n" + r.out[-2000:])
     vecs = [json.loads(l) for l in open(out) if l.strip()]
-    exprs = [v for v in vecs if v["kind"] == "expr"]
+    exprs = [v for v in vecs if v["kind"] in ("expr", "sweep")]
     refs = [v for v in vecs if v["kind"] == "abbrev"]
     vd.cov["states"] = len(vecs); vd.cov["transitions"] = len(vecs)
     # ---- locations: every expression as exprloc (v4, v5), block1 (v3) and inside a two/three-range location list (v3)
